@@ -41,7 +41,14 @@ def run_translate(fmt, path, outp):
             raise
         return ("raise", type(e).__name__)
     # argparse.FileType leaves the output file open: flush what this process holds
+    # (what interpreter exit does for the command-line user); a collection alone is not reliable
     import gc
+    for o in gc.get_objects():
+        try:
+            if isinstance(o, _io.TextIOWrapper) and getattr(o, "name", None) == outp and not o.closed:
+                o.flush()
+        except Exception:
+            pass
     gc.collect()
     with open(outp, "r", newline="") as f:
         return ("ok", f.read())
